@@ -31,7 +31,7 @@ property theorems.
     the reverse of their alloc order followed by reopen (or crash) + one more Put; and the
     same overlap across a page roll-over followed by ack + GC.
 -/
-import LinVerif.Lemmas.C05Part
+import LinVerif.Lemmas.C05Live
 import LinVerif.Generated.C05
 
 namespace LinVerif.Props.C05
@@ -466,6 +466,18 @@ theorem factory_refines_queue_model (mem : Mem) (pg b ps j : Nat) :
     (mem.indexLive.Nodup → (j ∈ (truncateIndex mem b).indexLive ↔ j ∈ ((Fct.ofLive mem.indexLive ps).truncate b).pages)) :=
   ⟨acquireData_refines mem pg ps, acquireIndex_refines mem pg ps,
    fun h => truncateData_refines mem h b ps j, fun h => truncateIndex_refines mem h b ps j⟩
+
+/-- In EVERY state reachable by the sequential alphabet (no side condition) the live-page lists
+are key sets — no page id twice — so the factory model opened on them satisfies its invariant
+and the queue model's GC truncation is exactly `TruncatePages` of the factory, on both families. -/
+theorem factory_refines_reachable (ops : List Op) (b ps j : Nat) :
+    FInv (Fct.ofLive (run St.init ops).mem.dataLive ps) ∧ FInv (Fct.ofLive (run St.init ops).mem.indexLive ps) ∧
+    (j ∈ (truncateData (run St.init ops).mem b).dataLive ↔
+       j ∈ ((Fct.ofLive (run St.init ops).mem.dataLive ps).truncate b).pages) ∧
+    (j ∈ (truncateIndex (run St.init ops).mem b).indexLive ↔
+       j ∈ ((Fct.ofLive (run St.init ops).mem.indexLive ps).truncate b).pages) := by
+  have h := liveOK_run liveOK_init ops
+  exact ⟨ofLive_inv h.1 ps, ofLive_inv h.2 ps, truncateData_refines _ h.1 b ps j, truncateIndex_refines _ h.2 b ps j⟩
 
 /-- INDEX PAGE GEOMETRY at the constants found in /repo now: the three fields lie inside an
 item without overlapping, an index page holds exactly `indexItemsPerPage` items, every item lies
